@@ -47,6 +47,10 @@ structure Cfg.Valid (cfg : Cfg) : Prop where
     | some [] => 0 < cfg.ante ∧ 3 ≤ cfg.n
     | some [a, b] => 0 ≤ a ∧ 0 ≤ b ∧ (0 < a ∨ 0 < b ∨ 0 < cfg.ante)
     | some _ => False
+  /-- with three or more seats the blinds are given small first (heads-up either order is accepted) -/
+  blinds_ordered : match cfg.blinds with
+    | some [a, b] => cfg.n = 2 ∨ a ≤ b
+    | _ => True
   runouts_pos : 1 ≤ cfg.runouts
   f_nonneg : 0 ≤ cfg.rake.f
   f_le_one : cfg.rake.f ≤ 1
